@@ -6,6 +6,7 @@
 namespace vf {
 
 std::string glue_forward_declarations(const std::vector<std::string>& inputs);
+std::vector<std::string> glue_fwd_wrapper_routes();
 
 namespace {
 
@@ -206,6 +207,44 @@ struct TypeGen {
 
 int prop_fwd(Run& run) {
     std::string emitdir = run.outdir + "/emit";
+    // the convenience overloads (template, type_info, whole policy) must declare what the
+    // string overload declares for the demangled name
+    {
+        run.cur_case = -1;
+        auto v = glue_fwd_wrapper_routes();
+        for (size_t i = 0; i + 3 < v.size(); i += 4) {
+            run.evaluations++;
+            run.count("wrapper-routes");
+            if (v[i + 1] != v[i + 3] || v[i + 2] != v[i + 3])
+                run.violation("C19:overloads-disagree", "{\"type\":" + jstr(v[i]) + ",\"template_overload\":" + jstr(v[i + 1]) + ",\"type_info_overload\":" + jstr(v[i + 2]) + ",\"string_overload\":" + jstr(v[i + 3]) + "}");
+            std::multiset<std::string> declared;
+            std::string why;
+            if (!parse_decls(v[i + 3], declared, why))
+                run.violation("C19:not-well-formed:real-types", "{\"type\":" + jstr(v[i]) + ",\"written\":" + jstr(v[i + 3]) + ",\"why\":" + jstr(why) + "}");
+        }
+        Rng rng(run.seed, 99991);
+        for (auto w : worlds()) {
+            if (w->caps().deferred || !run.want_policy(w->name()))
+                continue;
+            GenProfile prof;
+            prof.max_methods = 6;
+            Registry r = gen_registry(rng, prof, 0, pick_flavour(rng, w->caps()));
+            w->hard_reset();
+            w->materialize(r);
+            std::string a = w->forward_declarations_of_methods(true), b = w->forward_declarations_of_methods(false);
+            run.evaluations++;
+            run.count("policy-wide-routes");
+            std::multiset<std::string> declared;
+            std::string why;
+            if (a != b)
+                run.violation("C19:add_forward_declarations-differs-from-per-method", "{\"world\":" + jstr(w->name()) + ",\"policy_wide\":" + jstr(a) + ",\"per_method\":" + jstr(b) + "}");
+            else if (!parse_decls(a, declared, why) || !declared.count(std::string("vf::") + w->name()) || !declared.count("vf::Node"))
+                run.violation("C19:policy-wide-declarations-wrong", "{\"world\":" + jstr(w->name()) + ",\"written\":" + jstr(a) + ",\"expected\":\"well formed, declaring at least vf::Node and the policy class\"}");
+            w->soft_reset();
+        }
+        if (!run.violations.empty())
+            return 1;
+    }
     for (long cs = 0; cs < run.cases; ++cs) {
         if (run.only_case >= 0 && cs != run.only_case)
             continue;
